@@ -23,3 +23,14 @@ func (op *Operation) VerifSnapshot() VerifSnapshot {
 		Stopping:    op.stopping.IsSet(),
 	}
 }
+
+// VerifBeforeSelect, if set before Start, is called by the run loop after it has decided (under the
+// lock) whether to offer the stalled signal and released the lock, just before it blocks in its
+// select. It lets the harness own the interleaving "run loop has looked, has not yet slept".
+var VerifBeforeSelect func(op *Operation, offeringStall bool)
+
+func verifBeforeSelect(op *Operation, offeringStall bool) {
+	if f := VerifBeforeSelect; f != nil {
+		f(op, offeringStall)
+	}
+}
